@@ -1,7 +1,9 @@
 (* C04 extension -- proofs about Model.ValenceArom.  Sections:
      A. the aromatic branch of calc_implicit is the closed form arom_h: exact characterisation of the counts 1 / 0 / None,
         independence of the rule table and of the neighbour order, agreement with the localised rules on the Kekule
-        spelling of the environment *)
+        spelling of the environment
+     B. Graph.union / MoleculeContainer.substructure / split: totals are numbering free and additive over union (with and
+        without remap) and over split; fresh atom numbers; the hydrogen recalculation switch of substructure *)
 From Coq Require Import ZArith List String Bool Lia Permutation.
 From Model Require Import PyBase Graph PeriodicTable Valence ValenceArom.
 From Gen Require Import Elements.
@@ -287,3 +289,443 @@ Example aromatic_examples :
   kekule_env true [(4, 6); (1, 6); (4, 7)] = [(2, 6); (1, 6); (1, 7)] /\
   Z.of_nat (List.length arom_space) = 4791.
 Proof. vm_compute. repeat split; reflexivity. Qed.
+
+
+(* ================================================================================================
+   B. union / substructure / split: totals and the hydrogen recalculation switch
+   ================================================================================================ *)
+Lemma union_cat_mol_union g1 g2 : union_cat g1 g2 = mol_union g1 g2.
+Proof. reflexivity. Qed.
+
+(* the totals read the atoms only, never their numbers *)
+Definition atoms_of (g : mol) : list atom := map snd (m_atoms g).
+
+Lemma symbols_counter_snd l : forall l' c, map snd l = map snd l' -> symbols_counter l c = symbols_counter l' c.
+Proof.
+  induction l as [|[n a] l IH]; intros [|[n' a'] l'] c H; try discriminate; [reflexivity|].
+  cbn [map snd] in H. inversion H. subst. cbn [symbols_counter]. destruct (symbol_of (a_num a')); [apply IH; assumption | reflexivity].
+Qed.
+Lemma sum_h_snd l : forall l' acc, map snd l = map snd l' -> sum_h l acc = sum_h l' acc.
+Proof.
+  induction l as [|[n a] l IH]; intros [|[n' a'] l'] acc H; try discriminate; [reflexivity|].
+  cbn [map snd] in H. inversion H. subst. cbn [sum_h]. destruct (a_h a'); [apply IH; assumption | reflexivity].
+Qed.
+Lemma mass_loop_snd hm l : forall l' acc, map snd l = map snd l' -> mass_loop hm l acc = mass_loop hm l' acc.
+Proof.
+  induction l as [|[n a] l IH]; intros [|[n' a'] l'] acc H; try discriminate; [reflexivity|].
+  cbn [map snd] in H. inversion H. subst. cbn [mass_loop]. destruct (atomic_mass_e24 (a_num a') (a_iso a')); [|reflexivity].
+  destruct (a_h a'); [apply IH; assumption | reflexivity].
+Qed.
+Lemma existsb_map_c {A B} (f : B -> bool) (g : A -> B) l : existsb f (map g l) = existsb (fun x => f (g x)) l.
+Proof. induction l as [|x l IH]; cbn [map existsb]; [reflexivity | rewrite IH; reflexivity]. Qed.
+
+(* renumbering changes no total *)
+Theorem totals_numbering_free g g' : atoms_of g = atoms_of g' ->
+  brutto g = brutto g' /\ molecular_charge g = molecular_charge g' /\ is_radical g = is_radical g' /\
+  molecular_mass_e24 g = molecular_mass_e24 g'.
+Proof.
+  unfold atoms_of. intros H. split; [|split; [|split]].
+  - unfold brutto. rewrite (symbols_counter_snd _ _ [] H), (sum_h_snd _ _ 0 H). reflexivity.
+  - unfold molecular_charge. f_equal. rewrite <- !(map_map snd a_chg), H. reflexivity.
+  - unfold is_radical. rewrite <- !(existsb_map_c a_rad snd), H. reflexivity.
+  - unfold molecular_mass_e24. destruct (atomic_mass_e24 1 None); [|reflexivity]. apply mass_loop_snd. exact H.
+Qed.
+
+Lemma atoms_of_renumber g s : atoms_of (renumber g s) = atoms_of g.
+Proof. unfold atoms_of, renumber. cbn [m_atoms]. rewrite map_map. reflexivity. Qed.
+
+(* -- union -- *)
+Definition overlap (g1 g2 : mol) : bool := existsb (fun k => zmem k (ids g1)) (ids g2).
+Lemma overlap_iff g1 g2 : overlap g1 g2 = true <-> exists k, In k (ids g1) /\ In k (ids g2).
+Proof.
+  unfold overlap. rewrite existsb_exists. split.
+  - intros [k [H2 H1]]. apply zmem_In in H1. exists k. auto.
+  - intros [k [H1 H2]]. exists k. split; [exact H2 | apply zmem_In; exact H1].
+Qed.
+
+(* union raises (MappingError, a ValueError) exactly when remap is off and the two molecules share an atom number *)
+Theorem union_py_error g1 g2 remap :
+  (union_py g1 g2 remap = Err ValueError <-> remap = false /\ exists k, In k (ids g1) /\ In k (ids g2)) /\
+  ((exists u, union_py g1 g2 remap = Ok u) \/ union_py g1 g2 remap = Err ValueError).
+Proof.
+  unfold union_py. fold (overlap g1 g2). rewrite <- overlap_iff. destruct (overlap g1 g2), remap; split;
+    try (split; [discriminate | intros [A B]; discriminate]); try (left; eexists; reflexivity); try (right; reflexivity).
+  split; [intros _; split; reflexivity | reflexivity].
+Qed.
+
+(* the atoms of a union are the atoms of the two parts, in this order, each with its stored hydrogen count *)
+Theorem union_py_atoms g1 g2 remap u : union_py g1 g2 remap = Ok u -> atoms_of u = atoms_of g1 ++ atoms_of g2.
+Proof.
+  unfold union_py. destruct (existsb _ _); [destruct remap; [|discriminate]|]; intros H; inversion H; subst u;
+    unfold atoms_of, union_cat; cbn [m_atoms]; rewrite map_app; [|reflexivity].
+  fold (atoms_of (renumber g2 (max_id g1 + 1))). rewrite atoms_of_renumber. reflexivity.
+Qed.
+
+Lemma union_as_cat g1 g2 remap u : union_py g1 g2 remap = Ok u -> exists g2', atoms_of g2' = atoms_of g2 /\ u = mol_union g1 g2'.
+Proof.
+  unfold union_py. destruct (existsb _ _); [destruct remap; [|discriminate]|]; intros H; inversion H; subst u.
+  - exists (renumber g2 (max_id g1 + 1)). split; [apply atoms_of_renumber | reflexivity].
+  - exists g2. split; reflexivity.
+Qed.
+
+(* formula, charge, radical flag and mass of a union are the sums over the parts, with and without renumbering *)
+Theorem union_py_totals g1 g2 remap u : union_py g1 g2 remap = Ok u ->
+  molecular_charge u = molecular_charge g1 + molecular_charge g2 /\
+  is_radical u = is_radical g1 || is_radical g2 /\
+  (forall c1 c2, brutto g1 = Ok c1 -> brutto g2 = Ok c2 ->
+     exists c, brutto u = Ok c /\ forall s, sval c s = sval c1 s + sval c2 s) /\
+  (forall m1 m2, molecular_mass_e24 g1 = Ok m1 -> molecular_mass_e24 g2 = Ok m2 -> molecular_mass_e24 u = Ok (m1 + m2)).
+Proof.
+  intros H. destruct (union_as_cat _ _ _ _ H) as [g2' [E U]]. subst u.
+  destruct (totals_numbering_free g2' g2 E) as [B [C [R M]]].
+  split; [rewrite charge_union, C; reflexivity|]. split; [rewrite radical_union, R; reflexivity|]. split.
+  - intros c1 c2 H1 H2. rewrite <- B in H2. apply brutto_union; assumption.
+  - intros m1 m2 H1 H2. rewrite <- M in H2. apply mass_union; assumption.
+Qed.
+
+
+(* fresh numbers: with remap the second molecule is numbered max+1, max+2, ... in its atom order, so the union of two
+   molecules with duplicate-free atom numbers has duplicate-free atom numbers (no atom is overwritten by dict.update) *)
+Lemma index_from_add x l : forall i, index_from x l i = match index_from x l 0 with Some j => Some (i + j) | None => None end.
+Proof.
+  induction l as [|y r IH]; intros i; cbn [index_from]; [reflexivity|].
+  destruct (x =? y); [f_equal; lia|]. rewrite (IH (i + 1)), (IH (0 + 1)). destruct (index_from x r 0); [f_equal; lia | reflexivity].
+Qed.
+
+Lemma renum_ids l : forall s, NoDup l ->
+  map (fun n => match index_of l n with Some i => s + i | None => n end) l = zrange_from s (List.length l).
+Proof.
+  induction l as [|x r IH]; intros s ND; [reflexivity|]. inversion ND as [|? ? Hx NDr]. subst.
+  cbn [map List.length zrange_from]. f_equal.
+  - unfold index_of. cbn [index_from]. rewrite Z.eqb_refl. lia.
+  - rewrite <- (IH (s + 1) NDr). apply map_ext_in. intros y Hy. unfold index_of. cbn [index_from].
+    destruct (y =? x) eqn:E; [apply Z.eqb_eq in E; subst; contradiction|].
+    rewrite index_from_add. destruct (index_from y r 0); [lia | reflexivity].
+Qed.
+
+Lemma ids_renumber g s : NoDup (ids g) -> ids (renumber g s) = zrange_from s (List.length (ids g)).
+Proof.
+  intros ND. unfold ids at 1, renumber, keys. cbn [m_atoms]. rewrite map_map. cbn [fst].
+  rewrite <- (renum_ids (ids g) s ND). unfold ids, keys. rewrite map_map. reflexivity.
+Qed.
+
+Lemma zrange_from_nodup n : forall s, NoDup (zrange_from s n).
+Proof.
+  induction n as [|n IH]; intros s; cbn [zrange_from]; constructor; [|apply IH].
+  rewrite zrange_from_In. lia.
+Qed.
+
+Lemma fold_left_max_ge l : forall a x, (x = a \/ In x l) -> x <= fold_left Z.max l a.
+Proof.
+  induction l as [|y r IH]; intros a x H; cbn [fold_left].
+  - destruct H as [H | []]. lia.
+  - destruct H as [H | [H | H]].
+    + subst. specialize (IH (Z.max a y) (Z.max a y) (or_introl eq_refl)). lia.
+    + subst. specialize (IH (Z.max a x) (Z.max a x) (or_introl eq_refl)). lia.
+    + apply IH. right. exact H.
+Qed.
+Lemma max_id_ge g x : In x (ids g) -> x <= max_id g.
+Proof. intros H. unfold max_id. apply fold_left_max_ge. right. exact H. Qed.
+
+Lemma nodup_app (l1 l2 : list Z) : NoDup l1 -> NoDup l2 -> (forall x, In x l1 -> In x l2 -> False) -> NoDup (l1 ++ l2).
+Proof.
+  induction l1 as [|x r IH]; intros N1 N2 D; [exact N2|]. inversion N1 as [|? ? Hx Nr]. subst. cbn [app]. constructor.
+  - intros H. apply in_app_or in H. destruct H as [H | H]; [contradiction | apply (D x); [left; reflexivity | exact H]].
+  - apply IH; [exact Nr | exact N2 | intros y H1 H2; apply (D y); [right; exact H1 | exact H2]].
+Qed.
+
+Theorem union_py_ids g1 g2 remap u : NoDup (ids g1) -> NoDup (ids g2) -> union_py g1 g2 remap = Ok u ->
+  NoDup (ids u) /\
+  ids u = ids g1 ++ (if overlap g1 g2 then zrange_from (max_id g1 + 1) (List.length (ids g2)) else ids g2).
+Proof.
+  intros N1 N2. unfold union_py. fold (overlap g1 g2). destruct (overlap g1 g2) eqn:O.
+  - destruct remap; [|discriminate]. intros H. inversion H. subst u.
+    assert (E : ids (union_cat g1 (renumber g2 (max_id g1 + 1))) = ids g1 ++ zrange_from (max_id g1 + 1) (List.length (ids g2))).
+    { unfold ids at 1, union_cat, keys. cbn [m_atoms]. rewrite map_app. fold (keys (m_atoms g1)) (keys (m_atoms (renumber g2 (max_id g1 + 1)))).
+      fold (ids g1) (ids (renumber g2 (max_id g1 + 1))). rewrite (ids_renumber g2 _ N2). reflexivity. }
+    split; [|exact E]. rewrite E. apply nodup_app; [exact N1 | apply zrange_from_nodup|].
+    intros x H1 H2. apply zrange_from_In in H2. pose proof (max_id_ge g1 x H1). lia.
+  - intros H. inversion H. subst u.
+    assert (E : ids (union_cat g1 g2) = ids g1 ++ ids g2) by (unfold ids, union_cat, keys; cbn [m_atoms]; apply map_app).
+    split; [|exact E]. rewrite E. apply nodup_app; [exact N1 | exact N2|].
+    intros x H1 H2. assert (T : overlap g1 g2 = true) by (apply overlap_iff; exists x; auto). congruence.
+Qed.
+
+
+(* -- substructure without recalculation, split -- *)
+Definition in_sel (sel : list Z) (na : Z * atom) : bool := zmem (fst na) sel.
+
+Lemma sub_atoms_keep g sel : sub_atoms g sel false = filter (in_sel sel) (m_atoms g).
+Proof.
+  unfold sub_atoms. fold (in_sel sel). induction (filter (in_sel sel) (m_atoms g)) as [|[n a] l IH]; [reflexivity|].
+  cbn [map fst snd]. rewrite IH. reflexivity.
+Qed.
+
+(* a substructure taken without recalculation holds exactly the selected atoms, in the order of the molecule, each with the
+   hydrogen count it had *)
+Theorem substructure_keep_atoms g sel s : substructure g sel false = Ok s -> m_atoms s = filter (in_sel sel) (m_atoms g).
+Proof.
+  unfold substructure. destruct sel as [|x sel']; [discriminate|]. destruct (negb _); [discriminate|].
+  destruct (sub_adj _ _ _); [|discriminate]. intros H. inversion H. cbn [m_atoms]. apply sub_atoms_keep.
+Qed.
+
+Lemma split_with_atoms g comps : forall parts, split_with g comps = Ok parts ->
+  map m_atoms parts = map (fun c => filter (in_sel c) (m_atoms g)) comps.
+Proof.
+  induction comps as [|c r IH]; intros parts; cbn [split_with].
+  - intros H. inversion H. reflexivity.
+  - destruct (substructure g c false) as [s|] eqn:S; [|discriminate]. destruct (split_with g r) as [l|]; [|discriminate].
+    intros H. inversion H. subst parts. cbn [map]. rewrite (substructure_keep_atoms _ _ _ S), (IH l eq_refl). reflexivity.
+Qed.
+
+Definition cover_count (comps : list (list Z)) (n : Z) : nat := List.length (filter (fun c => zmem n c) comps).
+
+Lemma flat_filter_step comps (x : Z * atom) l :
+  Permutation (flat_map (fun c => filter (in_sel c) (x :: l)) comps)
+              (repeat x (cover_count comps (fst x)) ++ flat_map (fun c => filter (in_sel c) l) comps).
+Proof.
+  unfold cover_count. induction comps as [|c cs IH]; [constructor|].
+  change (flat_map (fun c0 => filter (in_sel c0) (x :: l)) (c :: cs))
+    with ((if zmem (fst x) c then x :: filter (in_sel c) l else filter (in_sel c) l) ++ flat_map (fun c0 => filter (in_sel c0) (x :: l)) cs).
+  change (flat_map (fun c0 => filter (in_sel c0) l) (c :: cs)) with (filter (in_sel c) l ++ flat_map (fun c0 => filter (in_sel c0) l) cs).
+  cbn [filter]. destruct (zmem (fst x) c); cbn [List.length repeat app].
+  - constructor. eapply Permutation_trans; [apply Permutation_app_head; exact IH|]. apply Permutation_app_swap_app.
+  - eapply Permutation_trans; [apply Permutation_app_head; exact IH|]. apply Permutation_app_swap_app.
+Qed.
+
+Lemma flat_filter_perm comps (l : list (Z * atom)) : (forall na, In na l -> cover_count comps (fst na) = 1%nat) ->
+  Permutation (flat_map (fun c => filter (in_sel c) l) comps) l.
+Proof.
+  induction l as [|x l IH]; intros H.
+  - clear H. induction comps as [|c cs IHc]; cbn [flat_map filter app]; [apply perm_nil | exact IHc].
+  - eapply Permutation_trans; [apply flat_filter_step|]. rewrite (H x (or_introl eq_refl)). cbn [repeat app].
+    constructor. apply IH. intros na Hin. apply H. right. exact Hin.
+Qed.
+
+Lemma is_partition_cover g comps : is_partition g comps = true -> forall na, In na (m_atoms g) -> cover_count comps (fst na) = 1%nat.
+Proof.
+  unfold is_partition. intros H na Hin. apply andb_prop in H. destruct H as [H _].
+  pose proof (proj1 (forallb_forall _ _) H (fst na)) as P. cbv beta in P. apply Nat.eqb_eq. apply P.
+  unfold ids, keys. apply in_map. exact Hin.
+Qed.
+
+(* the parts of split() hold exactly the atoms of the molecule: every atom once, with its stored hydrogen count *)
+Theorem split_atoms g comps parts : is_partition g comps = true -> split_with g comps = Ok parts ->
+  Permutation (flat_map m_atoms parts) (m_atoms g).
+Proof.
+  intros P S. rewrite flat_map_concat_map, (split_with_atoms _ _ _ S), <- flat_map_concat_map.
+  apply flat_filter_perm. apply is_partition_cover. exact P.
+Qed.
+
+Lemma zsum_flat_map {A} (f : A -> list Z) l : zsum (flat_map f l) = zsum (map (fun x => zsum (f x)) l).
+Proof.
+  induction l as [|x l IH]; [reflexivity|]. cbn [flat_map map]. rewrite zsum_app, IH. reflexivity.
+Qed.
+Lemma map_flat_map {A B C} (g : B -> C) (f : A -> list B) l : map g (flat_map f l) = flat_map (fun x => map g (f x)) l.
+Proof. induction l as [|x l IH]; [reflexivity|]. cbn [flat_map]. rewrite map_app, IH. reflexivity. Qed.
+Lemma existsb_flat_map {A B} (p : B -> bool) (f : A -> list B) l : existsb p (flat_map f l) = existsb (fun x => existsb p (f x)) l.
+Proof. induction l as [|x l IH]; [reflexivity|]. cbn [flat_map existsb]. rewrite existsb_app, IH. reflexivity. Qed.
+Lemma forallb_flat_map {A B} (p : B -> bool) (f : A -> list B) l : forallb p (flat_map f l) = forallb (fun x => forallb p (f x)) l.
+Proof. induction l as [|x l IH]; [reflexivity|]. cbn [flat_map forallb]. rewrite forallb_app, IH. reflexivity. Qed.
+Lemma formula_count_flat_map (parts : list mol) s :
+  formula_count (flat_map m_atoms parts) s = zsum (map (fun p => formula_count (m_atoms p) s) parts).
+Proof.
+  induction parts as [|p r IH]; [unfold formula_count, nsym, hsum; cbn; destruct (String.eqb s "H"); reflexivity|].
+  cbn [flat_map map]. rewrite formula_count_app, IH. reflexivity.
+Qed.
+
+Lemma psum_err_acc {A} (f : A -> pyres Z) l : forall a e, psum f l a = Err e -> forall a', psum f l a' = Err e.
+Proof.
+  induction l as [|x l IH]; intros a e; cbn [psum]; [discriminate|].
+  destruct (f x); [intros H a'; eapply IH; exact H | intros H a'; exact H].
+Qed.
+Lemma psum_flat {A B} (f : B -> pyres Z) (F : A -> list B) parts : forall m, psum f (flat_map F parts) 0 = Ok m ->
+  exists ms, Forall2 (fun p mi => psum f (F p) 0 = Ok mi) parts ms /\ m = zsum ms.
+Proof.
+  induction parts as [|p r IH]; intros m; cbn [flat_map].
+  - cbn [psum]. intros H. inversion H. exists []. split; [constructor | reflexivity].
+  - rewrite psum_app. destruct (psum f (F p) 0) as [v|] eqn:P; [|discriminate]. intros H.
+    destruct (psum f (flat_map F r) 0) as [w|] eqn:Q.
+    + rewrite (psum_acc f _ 0 w Q v) in H. inversion H. destruct (IH w eq_refl) as [ms [FA E]].
+      exists (v :: ms). split; [constructor; assumption|]. change (zsum (v :: ms)) with (v + zsum ms). lia.
+    + rewrite (psum_err_acc f _ 0 _ Q v) in H. discriminate.
+Qed.
+
+(* totals of the parts add up to the totals of the molecule *)
+Theorem split_totals g comps parts : is_partition g comps = true -> split_with g comps = Ok parts ->
+  molecular_charge g = zsum (map molecular_charge parts) /\
+  is_radical g = existsb is_radical parts /\
+  (forall s, formula_count (m_atoms g) s = zsum (map (fun p => formula_count (m_atoms p) s) parts)) /\
+  (forall c, brutto g = Ok c -> exists cs, Forall2 (fun p ci => brutto p = Ok ci) parts cs /\
+                                          forall s, sval c s = zsum (map (fun ci => sval ci s) cs)) /\
+  (forall m, molecular_mass_e24 g = Ok m -> exists ms, Forall2 (fun p mi => molecular_mass_e24 p = Ok mi) parts ms /\ m = zsum ms).
+Proof.
+  intros P S. pose proof (split_atoms _ _ _ P S) as Perm. split; [|split; [|split; [|split]]].
+  - rewrite charge_is_sum, <- (zsum_perm _ _ (Permutation_map _ Perm)), map_flat_map, zsum_flat_map.
+    f_equal. apply map_ext. intros p. symmetry. apply charge_is_sum.
+  - unfold is_radical at 1. rewrite <- (existsb_perm _ _ _ Perm), existsb_flat_map. reflexivity.
+  - intros s. rewrite <- (formula_count_perm _ _ s Perm). apply formula_count_flat_map.
+  - intros c Hc. destruct (proj1 (brutto_ok_iff g) (ex_intro _ c Hc)) as [K A].
+    rewrite <- (forallb_perm _ _ _ Perm), forallb_flat_map in K. rewrite <- (forallb_perm _ _ _ Perm), forallb_flat_map in A.
+    assert (Hparts : forall p, In p parts -> exists ci, brutto p = Ok ci).
+    { intros p Hp. apply brutto_ok_iff. split; [exact (proj1 (forallb_forall _ _) K p Hp) | exact (proj1 (forallb_forall _ _) A p Hp)]. }
+    assert (Hcs : exists cs, Forall2 (fun p ci => brutto p = Ok ci) parts cs).
+    { clear -Hparts. induction parts as [|p r IH]; [exists []; constructor|].
+      destruct (Hparts p (or_introl eq_refl)) as [ci Hci]. destruct IH as [cs Hcs]; [intros q Hq; apply Hparts; right; exact Hq|].
+      exists (ci :: cs). constructor; assumption. }
+    destruct Hcs as [cs Hcs]. exists cs. split; [exact Hcs|]. intros s.
+    rewrite (proj1 (brutto_is_count _ _ Hc) s), <- (formula_count_perm _ _ s Perm), formula_count_flat_map.
+    f_equal. clear -Hcs. induction Hcs as [|p ci r cs Hp _ IH]; [reflexivity|]. cbn [map]. rewrite IH, (proj1 (brutto_is_count _ _ Hp) s). reflexivity.
+  - intros m. unfold molecular_mass_e24. destruct (atomic_mass_e24 1 None) as [hm|]; [|discriminate].
+    rewrite mass_loop_psum. intros H. apply (psum_perm _ _ _ (Permutation_sym Perm)) in H.
+    destruct (psum_flat _ _ _ _ H) as [ms [FA E]]. exists ms. split; [|exact E].
+    clear -FA. induction FA as [|p mi r ms Hp _ IH]; constructor; [rewrite mass_loop_psum; exact Hp | exact IH].
+Qed.
+
+
+(* -- the recalculation switch of substructure -- *)
+Definition sub_f (recalc : bool) (a : atom) : atom := if recalc then clear_h a else a.
+
+Lemma zget_sub_atoms g sel recalc k :
+  zget (sub_atoms g sel recalc) k = if zmem k sel then option_map (sub_f recalc) (zget (m_atoms g) k) else None.
+Proof.
+  unfold sub_atoms. induction (m_atoms g) as [|[k0 a0] r IH]; cbn [filter map zget fst snd].
+  - destruct (zmem k sel); reflexivity.
+  - destruct (zmem k0 sel) eqn:E0; cbn [map zget fst snd].
+    + destruct (k =? k0) eqn:E; [apply Z.eqb_eq in E; subst k0; rewrite E0; destruct recalc; reflexivity | exact IH].
+    + destruct (k =? k0) eqn:E; [apply Z.eqb_eq in E; subst k0; rewrite E0 in *; exact IH | exact IH].
+Qed.
+
+Lemma keys_sub_atoms g sel recalc : keys (sub_atoms g sel recalc) = filter (fun n => zmem n sel) (ids g).
+Proof.
+  unfold sub_atoms, ids, keys. rewrite map_map. cbn [fst]. induction (m_atoms g) as [|[k0 a0] r IH]; [reflexivity|].
+  cbn [filter map fst]. destruct (zmem k0 sel); cbn [map fst]; rewrite IH; reflexivity.
+Qed.
+
+Definition keep (sel : list Z) (mb : Z * bond) : bool := zmem (fst mb) sel.
+
+Lemma sub_adj_spec g sel ns : forall adj, sub_adj g sel ns = Ok adj ->
+  adj = map (fun n => (n, filter (keep sel) (nbrs g n))) ns /\ forall n, In n ns -> exists nb, zget (m_adj g) n = Some nb.
+Proof.
+  induction ns as [|n r IH]; intros adj; cbn [sub_adj].
+  - intros H. inversion H. split; [reflexivity | intros n []].
+  - destruct (zget (m_adj g) n) as [nb|] eqn:Z; [|discriminate]. destruct (sub_adj g sel r) as [rest|]; [|discriminate].
+    intros H. inversion H. destruct (IH rest eq_refl) as [E A]. split.
+    + cbn [map]. unfold nbrs at 1. rewrite Z, <- E. reflexivity.
+    + intros k [Hk | Hk]; [subst k; exists nb; exact Z | apply A; exact Hk].
+Qed.
+
+Lemma zget_map_key {V} (F : Z -> V) ns k : zget (map (fun n => (n, F n)) ns) k = if zmem k ns then Some (F k) else None.
+Proof.
+  induction ns as [|n r IH]; [reflexivity|]. cbn [map zget zmem existsb]. fold (zmem k r).
+  destruct (k =? n) eqn:E; [apply Z.eqb_eq in E; subst; reflexivity | exact IH].
+Qed.
+
+Lemma closed_filter g sel k nb : closed_sel g sel = true -> zmem k sel = true -> zget (m_adj g) k = Some nb ->
+  filter (keep sel) nb = nb /\ forall mb, In mb nb -> zmem (fst mb) sel = true.
+Proof.
+  intros C K Z. apply zget_In in Z. pose proof (proj1 (forallb_forall _ _) C _ Z) as H. cbn [fst snd] in H.
+  rewrite K in H. cbn [negb orb] in H. split; [|exact (proj1 (forallb_forall _ _) H)].
+  clear -H. induction nb as [|mb r IH]; [reflexivity|]. cbn [forallb] in H. apply andb_prop in H. destruct H as [H1 H2].
+  cbn [filter]. unfold keep at 1. rewrite H1, (IH H2). reflexivity.
+Qed.
+
+(* the cut graph: what substructure builds before fix_structure *)
+Lemma sub_calc_closed g sel recalc adj k a : closed_sel g sel = true ->
+  sub_adj g sel (keys (sub_atoms g sel recalc)) = Ok adj -> atom_of g k = Some a -> zmem k sel = true ->
+  calc_implicit (mkMol (sub_atoms g sel recalc) adj) k = calc_implicit g k.
+Proof.
+  intros C S Ha K. destruct (sub_adj_spec _ _ _ _ S) as [E A]. set (s0 := mkMol (sub_atoms g sel recalc) adj).
+  assert (Hk : In k (keys (sub_atoms g sel recalc))).
+  { rewrite keys_sub_atoms. apply filter_In. split; [|exact K]. unfold ids, keys. change k with (fst (k, a)). apply in_map. apply zget_In. exact Ha. }
+  destruct (A k Hk) as [nb Z].
+  unfold calc_implicit. unfold atom_of at 1. subst s0. cbn [m_atoms m_adj]. rewrite zget_sub_atoms, K. unfold atom_of in Ha. rewrite Ha. cbn [option_map].
+  fold (atom_of g k). unfold atom_of. rewrite Ha.
+  assert (Hc : a_num (sub_f recalc a) = a_num a /\ a_chg (sub_f recalc a) = a_chg a /\ a_rad (sub_f recalc a) = a_rad a /\
+               rules_of_atom (sub_f recalc a) = rules_of_atom a) by (destruct recalc; repeat split; reflexivity).
+  destruct Hc as [Hn [Hc [Hr Hru]]]. rewrite Hn, Hc, Hr, Hru. destruct (a_num a =? 1); [reflexivity|].
+  rewrite E, zget_map_key, (proj2 (zmem_In _ _) Hk), Z. unfold nbrs. rewrite Z.
+  destruct (closed_filter _ _ _ _ C K Z) as [F All]. rewrite F. f_equal.
+  unfold nview_of. apply map_ext_in. intros mb Hmb. f_equal. unfold atom_of. cbn [m_atoms]. rewrite zget_sub_atoms, (All mb Hmb).
+  destruct (zget (m_atoms g) (fst mb)) as [a'|]; [|reflexivity]. cbn [option_map]. destruct recalc; reflexivity.
+Qed.
+
+Lemma with_h_eta a : with_h a (a_h a) = a.
+Proof. destruct a; reflexivity. Qed.
+
+(* with recalculation, a selection that no bond leaves gets exactly the counts calc_implicit gives in the whole molecule *)
+Theorem sub_recalc_closed g sel s : closed_sel g sel = true -> substructure g sel true = Ok s ->
+  ids s = filter (fun n => zmem n sel) (ids g) /\
+  forall k a, atom_of g k = Some a -> zmem k sel = true -> atom_of s k = Some (with_h a (result_of (calc_implicit g k))).
+Proof.
+  intros C. unfold substructure. destruct sel as [|x sel']; [discriminate|]. set (sel := x :: sel') in *.
+  destruct (negb _); [discriminate|]. destruct (sub_adj g sel (keys (sub_atoms g sel true))) as [adj|] eqn:S; [|discriminate].
+  unfold fix_hydrogens. intros H. destruct (recalc_loop_spec _ _ _ H) as [Sk [I [Hok Hat]]]. split.
+  - rewrite I. unfold ids at 1. cbn [m_atoms]. apply keys_sub_atoms.
+  - intros k a Ha K. rewrite Hat. unfold atom_of at 1. cbn [m_atoms]. rewrite zget_sub_atoms, K. unfold atom_of in Ha. rewrite Ha. cbn [option_map sub_f].
+    assert (Hk : zmem k (ids (mkMol (sub_atoms g sel true) adj)) = true).
+    { apply zmem_In. unfold ids. cbn [m_atoms]. rewrite keys_sub_atoms. apply filter_In. split; [|exact K].
+      unfold ids, keys. change k with (fst (k, a)). apply in_map. apply zget_In. exact Ha. }
+    rewrite Hk, (sub_calc_closed g sel true adj k a C S Ha K). reflexivity.
+Qed.
+
+Lemma assoc_ext {V} (l l' : list (Z * V)) : map fst l = map fst l' -> NoDup (map fst l) -> (forall k, zget l k = zget l' k) -> l = l'.
+Proof.
+  revert l'. induction l as [|[k v] r IH]; intros [|[k' v'] r'] K ND Z; try discriminate; [reflexivity|].
+  cbn [map fst] in K, ND. inversion K as [[K1 K2]]. subst k'. inversion ND as [|? ? Hk NDr]. subst.
+  pose proof (Z k) as Zk. cbn [zget] in Zk. rewrite Z.eqb_refl in Zk. inversion Zk. subst v'. f_equal.
+  apply IH; [exact K2 | exact NDr|]. intros j. specialize (Z j). cbn [zget] in Z. destruct (j =? k) eqn:E; [|exact Z].
+  apply Z.eqb_eq in E. subst j.
+  assert (N1 : zget r k = None). { destruct (zget r k) eqn:G; [|reflexivity]. exfalso. apply Hk. change k with (fst (k, v0)). apply in_map. apply zget_In. exact G. }
+  assert (N2 : zget r' k = None). { destruct (zget r' k) eqn:G; [|reflexivity]. exfalso. apply Hk. rewrite K2. change k with (fst (k, v0)). apply in_map. apply zget_In. exact G. }
+  congruence.
+Qed.
+
+(* every stored hydrogen count is what calc_implicit gives now (the state after fix_structure) *)
+Definition fresh (g : mol) : Prop := forall k a, atom_of g k = Some a -> a_h a = result_of (calc_implicit g k).
+
+(* on such a molecule the switch is irrelevant for a selection that no bond leaves (a union of connected components):
+   substructure(..., recalculate_hydrogens=True) and (..., False) build the same molecule *)
+Theorem sub_switch_irrelevant g sel s : NoDup (ids g) -> closed_sel g sel = true -> fresh g ->
+  substructure g sel true = Ok s -> substructure g sel false = Ok s.
+Proof.
+  intros ND C F H. destruct (sub_recalc_closed _ _ _ C H) as [I At]. revert H.
+  unfold substructure. destruct sel as [|x sel']; [discriminate|]. set (sel := x :: sel') in *.
+  destruct (negb _); [discriminate|]. rewrite !keys_sub_atoms.
+  pose proof (keys_sub_atoms g sel true) as Kt.
+  destruct (sub_adj g sel (filter (fun n => zmem n sel) (ids g))) as [adj|] eqn:S; [|discriminate].
+  unfold fix_hydrogens. intros H. destruct (recalc_loop_spec _ _ _ H) as [[Adj _] [I' [_ Hat]]]. cbn [m_adj] in Adj.
+  f_equal. destruct s as [sa sj]. cbn [m_adj] in Adj. subst sj. f_equal. symmetry.
+  assert (NDs : NoDup (filter (fun n => zmem n sel) (ids g))) by (apply NoDup_filter; exact ND).
+  apply assoc_ext.
+  - change (map fst sa) with (ids (mkMol sa adj)). rewrite I. symmetry. apply keys_sub_atoms.
+  - change (map fst sa) with (ids (mkMol sa adj)). rewrite I. exact NDs.
+  - intros k. change (zget sa k) with (atom_of (mkMol sa adj) k). rewrite zget_sub_atoms. cbn [sub_f].
+    destruct (zmem k sel) eqn:K.
+    + destruct (zget (m_atoms g) k) as [a|] eqn:G.
+      * rewrite (At k a G K), <- (F k a G), with_h_eta. reflexivity.
+      * cbn [option_map]. rewrite Hat. unfold atom_of. cbn [m_atoms]. rewrite zget_sub_atoms, K, G. reflexivity.
+    + rewrite Hat. unfold atom_of. cbn [m_atoms]. rewrite zget_sub_atoms, K. reflexivity.
+Qed.
+
+(* ... and it is not for a selection that cuts a bond: one carbon of ethane keeps 3 hydrogens without recalculation and
+   becomes methane with it *)
+Definition ethane : mol :=
+  mkMol [(1, mkAtom 6 None 0 false (Some 3) None); (2, mkAtom 6 None 0 false (Some 3) None)]
+        [(1, [(2, mkBond 1 None)]); (2, [(1, mkBond 1 None)])].
+Example sub_switch_matters :
+  closed_sel ethane [1] = false /\
+  option_map (fun s => map (fun na => a_h (snd na)) (m_atoms s)) (match substructure ethane [1] false with Ok s => Some s | Err _ => None end) = Some [Some 3] /\
+  option_map (fun s => map (fun na => a_h (snd na)) (m_atoms s)) (match substructure ethane [1] true with Ok s => Some s | Err _ => None end) = Some [Some 4] /\
+  closed_sel ethane [1; 2] = true /\ substructure ethane [2; 1] true = Ok ethane /\ substructure ethane [2; 1] false = Ok ethane.
+Proof. vm_compute. repeat split; reflexivity. Qed.
+
+(* non-vacuity: methanol | methanol (renumbered 3, 4), split back into its two components *)
+Example union_split_example :
+  union_py methanol methanol false = Err ValueError /\
+  exists u p2, union_py methanol methanol true = Ok u /\ ids u = [1; 2; 3; 4] /\ wf_mol u = true /\
+    is_partition u [[1; 2]; [3; 4]] = true /\ forallb (closed_sel u) [[1; 2]; [3; 4]] = true /\
+    split_with u [[1; 2]; [3; 4]] = Ok [methanol; p2] /\ ids p2 = [3; 4] /\ atoms_of p2 = atoms_of methanol /\
+    brutto u = Ok [("C"%string, 2); ("O"%string, 2); ("H"%string, 8)] /\
+    substructure u [4; 3] true = Ok p2 /\ substructure u [] true = Err ValueError /\ substructure u [5] true = Err ValueError.
+Proof. split; [reflexivity|]. eexists. eexists. vm_compute. repeat split; reflexivity. Qed.
